@@ -238,7 +238,9 @@ def run(ctx):
     o = fullgen.Opts()
     maxd = ctx.pick(7, 10)
     for i in range(ctx.pick(2500, 60000)):
-        if ctx.out_of_time():
+        # (the first 200 trees run even when the sweeps above used up the budget on a loaded machine:
+        # the node-kind requirements must not depend on the machine's load)
+        if ctx.out_of_time() and i >= 200:
             break
         t = fullgen.gen_expr(rng, o, rng.randint(1, maxd))
         if T.size(t) > 300:
